@@ -365,4 +365,209 @@ theorem pool_window_in_bounds (lead li : List Nat) (H W kh kw sh sw i j : Nat) (
 
 end C17
 
+section Chains
+open NmVerif NmVerif.Index
+
+/-! ## concrete chains (non-vacuity of `chain_read_in_buffer`) -/
+
+/-- depth 3: `transpose(tile(reshape(a, tgt), reps), axes)` -/
+theorem depth3_transpose_tile_reshape_in_buffer {α : Type} (s : Shape) (tgt : List Int) (reps : List Nat)
+    (ax : List Int) (p : List Nat) (r t o : IxView) (hs : Pos s)
+    (hr : reshapeView s tgt = some r) (ht : tileView r.dst reps = some t)
+    (hn : normalizeAxes t.dst.length ax = some p) (hperm : p.Perm (List.range t.dst.length))
+    (ho : transposeView t.dst (some ax) = some o)
+    (a : NDA α) (hw : a.WF) (hsh : a.shape = s)
+    (d : Idx) (hd : InShape d o.dst) (i : Idx) (hm : (compAll o [t, r]).map d = some i) :
+    a.offset i < a.data.length := by
+  have hrb := reshape_inBounds s tgt r hs hr
+  have hrs : r.src = s := by
+    simp only [reshapeView, Option.map_eq_some_iff] at hr
+    obtain ⟨_, _, rfl⟩ := hr; rfl
+  have hrpos : Pos r.dst := by
+    simp only [reshapeView, Option.map_eq_some_iff] at hr
+    obtain ⟨q, hq, rfl⟩ := hr
+    exact pos_of_prod_pos q (by rw [shapeReshape_prod s tgt q hs hq]; exact prod_pos hs)
+  have htb := tile_inBounds r.dst reps t ht hrpos
+  have hts : t.src = r.dst := by
+    simp only [tileView, Option.some.injEq] at ht; subst ht; rfl
+  have hob := transpose_inBounds t.dst ax p o hn hperm ho
+  have hos : o.src = t.dst := by
+    obtain ⟨w, hw', hsrc, _⟩ := C03.transpose_eq_spec t.dst ax p hn hperm
+    rw [ho] at hw'; cases hw'; exact hsrc
+  have hc : ChainOk [o, t, r] := ⟨hob, hos, htb, hts, hrb⟩
+  refine chain_read_in_buffer o [t, r] hc a hw ?_ d ?_ i hm
+  · simp [compAll, IxView.comp, hrs, hsh]
+  · simpa [compAll, IxView.comp] using hd
+
+/-- depth 3 with a fill stage: `flip(pad(broadcast_to(a, shape), widths), axes)` — no positivity needed -/
+theorem depth3_flip_pad_broadcast_in_buffer {α : Type} (s dst before after : List Nat) (axes : Option (List Int))
+    (b p f : IxView) (hb : broadcastToView s dst = some b)
+    (hbl : before.length = dst.length) (hal : after.length = dst.length)
+    (hp : padView dst (before ++ after) = some p) (hf : flipView p.dst axes = some f)
+    (a : NDA α) (hw : a.WF) (hsh : a.shape = s)
+    (d : Idx) (hd : InShape d f.dst) (i : Idx) (hm : (compAll f [p, b]).map d = some i) :
+    a.offset i < a.data.length := by
+  have hbb := broadcastTo_inBounds s dst b hb
+  obtain ⟨hbs, hbd⟩ : b.src = s ∧ b.dst = dst := by
+    simp only [broadcastToView, Option.map_eq_some_iff] at hb
+    obtain ⟨_, _, rfl⟩ := hb; exact ⟨rfl, rfl⟩
+  have hpb := pad_inBounds dst before after hbl hal p hp
+  have hps : p.src = dst := by
+    simp only [padView, Option.map_eq_some_iff] at hp
+    obtain ⟨_, _, rfl⟩ := hp; rfl
+  have hfb := flip_inBounds p.dst axes f hf
+  have hfs : f.src = p.dst := by
+    simp only [flipView, Option.some.injEq] at hf; subst hf; rfl
+  have hc : ChainOk [f, p, b] := ⟨hfb, hfs, hpb, by rw [hps, hbd], hbb⟩
+  refine chain_read_in_buffer f [p, b] hc a hw ?_ d ?_ i hm
+  · simp [compAll, IxView.comp, hbs, hsh]
+  · simpa [compAll, IxView.comp] using hd
+
+/-! non-vacuity: the hypotheses hold on concrete values and the chain really reads the claimed element -/
+example : (do
+    let r ← reshapeView [2,3] [3,-1]
+    let t ← tileView r.dst [2,1,2]
+    let o ← transposeView t.dst (some [2,0,-2])
+    pure ((compAll o [t, r]).dst, (compAll o [t, r]).map [3,1,2])) = some ([4,2,3], some [1,2]) := by decide
+example : normalizeAxes 3 [2,0,-2] = some [2,0,1] ∧ [2,0,1].Perm (List.range 3) := by decide
+example : (do
+    let b ← broadcastToView [3,1] [2,3,2]
+    let p ← padView b.dst ([1,0,1] ++ [0,2,0])
+    let f ← flipView p.dst (some [0,2])
+    pure ((compAll f [p, b]).dst, (compAll f [p, b]).map [0,1,0], (compAll f [p, b]).map [2,0,0])) =
+    some ([3,5,3], some [1,0], none) := by decide
+
+/-! ## capacity: a result container sized by the operands' bound is never asked to hold more
+
+The C++ result type of these index functions is, for bounded operands, `static_vector<_, B>` with `B` the bound
+of the operand (resp. the larger of the two operands' bounds).  Each theorem: the number of entries the function
+writes is at most that bound. -/
+
+theorem shapeTranspose_len_le_cap (s : Shape) (axes : Option (List Int)) (r : Shape) (cap : Nat)
+    (h : shapeTranspose s axes = some r) (hc : s.length ≤ cap) : r.length ≤ cap := by
+  cases axes with
+  | none => simp only [shapeTranspose, Option.some.injEq] at h; subst h; simpa using hc
+  | some ax =>
+    simp only [shapeTranspose] at h
+    split at h
+    · rename_i hl
+      rw [mapM_some_length _ _ _ h, hl]; exact hc
+    · cases h
+
+theorem shapeReshape_len_le_cap (src : Shape) (dst : List Int) (r : Shape) (cap : Nat)
+    (h : shapeReshape src dst = some r) (hc : dst.length ≤ cap) : r.length ≤ cap := by
+  simp only [shapeReshape] at h
+  split at h
+  · cases h
+  · split at h
+    · cases h
+    · split at h
+      · cases h
+      · simp only [Option.some.injEq] at h; subst h; simpa using hc
+
+private theorem bcRev_length (a b r : List Nat) (h : bcRev a b = some r) : r.length = max a.length b.length := by
+  induction a generalizing b r with
+  | nil => simp only [bcRev, Option.some.injEq] at h; subst h; simp
+  | cons x xs ih =>
+    cases b with
+    | nil => simp only [bcRev, Option.some.injEq] at h; subst h; simp
+    | cons y ys =>
+      simp only [bcRev] at h
+      cases hb : bc1 x y with
+      | none => simp [hb] at h
+      | some z =>
+        simp only [hb, Option.map_eq_some_iff] at h
+        obtain ⟨q, hq, rfl⟩ := h
+        simp only [List.length_cons, ih ys q hq]; omega
+
+theorem broadcastShape_len_le_cap (a b r : Shape) (capA capB : Nat) (h : broadcastShape2 a b = some r)
+    (ha : a.length ≤ capA) (hb : b.length ≤ capB) : r.length ≤ max capA capB := by
+  simp only [broadcastShape2, Option.map_eq_some_iff] at h
+  obtain ⟨q, hq, rfl⟩ := h
+  have := bcRev_length _ _ _ hq
+  simp only [List.length_reverse] at this ⊢
+  omega
+
+theorem shapeTile_len_le_cap (s reps : List Nat) (capS capR : Nat) (hs : s.length ≤ capS) (hr : reps.length ≤ capR) :
+    (shapeTile s reps).length ≤ max capS capR := by
+  rw [shapeTile_length]; omega
+
+private theorem removeDimsLoop_length_le (p : Nat → Bool) (keep : Bool) (i : Nat) (s : Shape) :
+    (Reduce.removeDimsLoop p keep i s).length ≤ s.length := by
+  induction s generalizing i with
+  | nil => simp [Reduce.removeDimsLoop]
+  | cons a t ih =>
+    simp only [Reduce.removeDimsLoop]
+    split
+    · have := ih (i+1); simp; omega
+    · have := ih (i+1); simp; omega
+
+theorem removeDims_len_le_cap (s : Shape) (axis : Reduce.AxisArg) (keep : Bool) (r : Shape) (cap : Nat)
+    (h : Reduce.removeDims s axis keep = some r) (hc : s.length ≤ cap) : r.length ≤ cap := by
+  unfold Reduce.removeDims at h
+  have hl := removeDimsLoop_length_le
+  cases hu : Reduce.unwrapAxes s.length axis with
+  | none => simp [hu] at h
+  | some ax =>
+    by_cases hk : keep = true
+    · simp [hu, hk] at h; subst h; exact Nat.le_trans (hl _ _ _ _) hc
+    · simp [hu, hk] at h
+      obtain ⟨_, rfl⟩ := h
+      exact Nat.le_trans (hl _ _ _ _) hc
+
+private theorem shapeConcatLoop_length_le (axis : Int) (i : Nat) (a b : Shape) :
+    (shapeConcatLoop axis i a b).2.length ≤ a.length := by
+  induction a generalizing i b with
+  | nil => simp [shapeConcatLoop]
+  | cons x xs ih =>
+    cases b with
+    | nil => simp [shapeConcatLoop]
+    | cons y ys =>
+      simp only [shapeConcatLoop]
+      have := ih (i+1) ys
+      split
+      · simp; omega
+      · split
+        · simp; omega
+        · simp
+
+theorem shapeConcatenate_len_le_cap (a b : Shape) (axis : Int) (cap : Nat) (hc : a.length ≤ cap) :
+    (shapeConcatenate a b axis).2.length ≤ cap := by
+  simp only [shapeConcatenate]
+  split
+  · exact Nat.le_trans (shapeConcatLoop_length_le axis 0 a b) hc
+  · simpa using hc
+
+theorem shapePad_len_le_cap (s widths r : List Nat) (cap : Nat) (h : shapePad s widths = some r)
+    (hc : s.length ≤ cap) : r.length ≤ cap := by
+  simp only [shapePad] at h
+  split at h
+  · simp only [Option.some.injEq] at h; subst h
+    simp only [List.length_zipWith, List.length_take, List.length_drop]; omega
+  · cases h
+
+private theorem setPy_length {α} (l : List α) (i : Int) (v : α) : (setPy l i v).length = l.length := by
+  simp only [setPy]; split <;> simp
+
+theorem shapeRepeat_len_le_cap (s : Shape) (r : Nat) (axis : Int) (t : Shape) (cap : Nat)
+    (h : shapeRepeat s r axis = some t) (hc : s.length ≤ cap) : t.length ≤ cap := by
+  simp only [shapeRepeat, Option.map_eq_some_iff] at h
+  obtain ⟨_, _, rfl⟩ := h
+  rw [setPy_length]; exact hc
+
+theorem shapeRepeatList_len_le_cap (s : Shape) (rs : List Nat) (axis : Int) (t : Shape) (cap : Nat)
+    (h : shapeRepeatList s rs axis = some t) (hc : s.length ≤ cap) : t.length ≤ cap := by
+  simp only [shapeRepeatList, Option.map_eq_some_iff] at h
+  obtain ⟨_, _, rfl⟩ := h
+  rw [setPy_length]; exact hc
+
+/-! non-vacuity: a rank-3 shape in a container bounded by 4, reps of length 5 in a container bounded by 8 -/
+example : (shapeTile [2,3,4] [1,2,1,2,1]).length = 5 ∧ 5 ≤ max 4 8 := by decide
+example : broadcastShape2 [3,1] [2,1,4] = some [2,3,4] := by decide
+example : shapeTranspose [2,3,4] (some [2,0,1]) = some [4,2,3] ∧ shapeReshape [2,3,4] [4,-1] = some [4,6] := by decide
+example : Reduce.removeDims [2,3,4] (some [0,-1]) false = some [3] ∧ shapePad [2,3] [1,0,0,2] = some [3,5] := by decide
+example : shapeConcatenate [2,3] [2,1] 1 = (true, [2,4]) ∧ shapeRepeat [2,3] 2 (-1) = some [2,6] := by decide
+
+end Chains
+
 end NmVerif.Props.C02
